@@ -508,10 +508,11 @@ class Doist(tyming.Tymist):
         for doer in doers:
             if doer not in self.doers and doer not in udoers:
                 udoers.append(doer)
-        doers = udoers
-        deeds = self.enter(doers=doers)  # provide fresh deeds for new doers
-        self.doers.extend(doers)
-        self.deeds.extend(deeds)
+        for doer in udoers:  # one at a time so when an enter raises the doers
+            # entered so far are in .doers and .deeds and get closed by .exit
+            deeds = self.enter(doers=[doer])  # provide fresh deeds for new doer
+            self.doers.append(doer)
+            self.deeds.extend(deeds)
 
 
     def remove(self, doers):
@@ -1396,10 +1397,11 @@ class DoDoer(Doer):
         for doer in doers:
             if doer not in self.doers and doer not in udoers:
                 udoers.append(doer)
-        doers = udoers
-        deeds = self.enter(doers=doers)  # provide fresh deeds for new doers
-        self.doers.extend(doers)
-        self.deeds.extend(deeds)
+        for doer in udoers:  # one at a time so when an enter raises the doers
+            # entered so far are in .doers and .deeds and get closed by .exit
+            deeds = self.enter(doers=[doer])  # provide fresh deeds for new doer
+            self.doers.append(doer)
+            self.deeds.extend(deeds)
 
 
     def remove(self, doers):
